@@ -6,7 +6,7 @@ from . import c01
 PROP_ID = "C03"
 FEATURE = "c03"
 ENGINE = "E1 kani-cbmc"
-QUICK_MAX_S = 125   # decode harnesses cost 60-120 s each; 12 run in parallel
+QUICK_MAX_S = 180   # decode harnesses cost 60-120 s each; 12 run in parallel
 FUNCTIONS = ["erltf::decode, erltf::decoder::decode_with_trailing -> parse_term_from_tag and every parse_* incl. legacy tags "
              "(parse_atom_latin1, parse_small_atom_latin1, parse_pid_ext, parse_port_ext, parse_reference_ext, parse_new_reference_ext, "
              "parse_large_tuple, parse_large_big, parse_string_ext, parse_local_ext)", "reference: refetf::emit with the alternative "
